@@ -157,14 +157,27 @@ def ensure(variant, repo=None, quiet=False):
             # drop snapshots / builds of other hashes (keep disk use bounded)
             for name in os.listdir(CACHE):
                 p = os.path.join(CACHE, name)
+                try:
+                    age = time.time() - os.path.getmtime(p)
+                except OSError:
+                    continue        # removed by a concurrent check
                 if name.startswith("src-") and name != "src-" + thash:
-                    if time.time() - os.path.getmtime(p) > 3600:
+                    if age > 3600:
                         _rm(p)
+                if name.startswith("lock-") and age > 86400:
+                    try:
+                        os.unlink(p)
+                    except OSError:
+                        pass
                 if name.startswith("build-%s-" % variant) and name != os.path.basename(bdir):
                     okf = os.path.join(p, ".verif-ok")
                     # other trees (scratch worktrees used by self-tests) may be in use right now:
                     # drop a build only when it has not been used for a while
-                    if not os.path.exists(okf) or time.time() - os.path.getmtime(okf) > 1800:
+                    try:
+                        stale = time.time() - os.path.getmtime(okf if os.path.exists(okf) else p) > 1800
+                    except OSError:
+                        stale = False
+                    if stale:
                         _rm(p)
         finally:
             fcntl.flock(slock, fcntl.LOCK_UN)
